@@ -1056,9 +1056,31 @@ func (r *run) gzip(body []byte, damage string) []byte {
 	return badGzip(body, damage)
 }
 
+const garbageVariants = 12
+
 // garbage bodies: nothing tl.DecodeUnknownObject accepts
 func garbageBody(n int) ([]byte, string) {
-	switch n % 5 {
+	packed := func(inflated []byte) []byte {
+		return append(refserver.Gzip(nil)[:4], refserver.TLBytes(refserver.GzipStream(inflated, n/garbageVariants%refserver.GzipVariants, 4))...)
+	}
+	res := refserver.RpcResult(0x5e0b700a00000044, refserver.Object(&objects.Pong{MsgID: 1, PingID: 2}))
+	switch n % garbageVariants {
+	case 5: // gzip_packed whose content is an rpc_result cut inside req_msg_id
+		return packed(res[:4+(n/garbageVariants)%8]), "packed-result-cut-in-id"
+	case 6: // gzip_packed whose content is an rpc_result without a result
+		return packed(res[:12]), "packed-result-without-result"
+	case 7: // gzip_packed with an empty stream inside
+		return packed(nil), "packed-nothing"
+	case 8: // gzip_packed whose byte string is not a gzip stream
+		return append(refserver.Gzip(nil)[:4], refserver.TLBytes([]byte("certainly not a gzip stream"))...), "packed-not-gzip"
+	case 9: // rpc_result cut inside req_msg_id
+		return res[:4+(n/garbageVariants)%8], "result-cut-in-id"
+	case 10: // gzip_packed cut inside the header of its byte string
+		return append(refserver.Gzip(nil)[:4], 0xfe, 0x10), "packed-cut-in-length"
+	case 11: // gzip_packed whose content is a cut gzip_packed
+		return packed(packed(res)[:9]), "packed-packed-cut"
+	}
+	switch n % garbageVariants {
 	case 0: // a constructor id that is not registered
 		return []byte{0xef, 0xbe, 0xad, 0xde, 1, 2, 3, 4}, "unregistered-constructor"
 	case 1: // new_session_created cut after its first field
@@ -1389,10 +1411,14 @@ func (r *run) finish() {
 			if cs.done && got != exp {
 				r.viol("C11", "salt-rotation:caller-got-foreign-or-no-answer:"+cs.spec.kind,
 					fmt.Sprintf("caller %d call %d (declared %s) expected %s got %s", t, cs.k, cs.spec.kind, exp, got))
+				r.viol("C09", "live:misrouted-or-mistyped:"+cs.spec.kind,
+					fmt.Sprintf("caller %d call %d (declared %s, request written %d time(s)) expected %s got %s", t, cs.k, cs.spec.kind, len(cs.ids), exp, got))
 			}
 			if !cs.done && cs.answers > 0 && ok {
 				r.viol("C11", "salt-rotation:answered-call-pending",
 					fmt.Sprintf("caller %d call %d was answered by the server under its latest msg id but never returned", t, cs.k))
+				r.viol("C09", "live:answered-call-pending:"+cs.spec.kind,
+					fmt.Sprintf("caller %d call %d (declared %s, request written %d time(s)) was answered by the server under its latest msg id but never returned", t, cs.k, cs.spec.kind, len(cs.ids)))
 				r.viol("C16", "answered-call-never-returned",
 					fmt.Sprintf("caller %d call %d was answered by the server (possibly as a later item of a container) but never returned although the receive loop is idle", t, cs.k))
 			}
